@@ -245,8 +245,11 @@ EXTRA = (" Since the seeded-change rounds (DESIGN.md section 10) the workload al
          "place, second sessions, two live objects), argument shapes (keyword calls, tuples, run-time-built strings, "
          "real pyserial entry types, mixed int/float), extreme magnitudes and constructed exact-boundary classes; "
          "the evidence file lists every class with its count, and a run in which a declared class or monitor "
-         "stays below its threshold exits 2 (inconclusive) instead of 0. Validated against 100 independently "
-         "written property-breaking changes (all reported) and 20 property-preserving refactors (none reported).")
+         "stays below its threshold exits 2 (inconclusive) instead of 0. Every check also makes bursts of calls to the "
+         "other library functions between its cases (cross-function histories), records the line reach of the "
+         "anchored functions (a named function never entered makes the run inconclusive) and, where the contract "
+         "is self-contained, runs the repository's own tests under the contract. Validated against 140 independently "
+         "written property-breaking changes (all reported) and 60 property-preserving refactors (none reported).")
 
 
 def main():
